@@ -216,4 +216,266 @@ theorem sumL_scaleInlets (n c : Nat) (hc : c < n) (x : List Rat) (vin : List Vec
       simp only [scaleInlets, dot] at this ⊢
       simp only [List.zipWith_cons_cons, List.map_cons, sumL_cons, this, at_tab hc]
 
+/-! ### Gaussian elimination: soundness and completeness -/
+
+theorem dot_cons (a : Rat) (r : List Rat) (b : Rat) (x : List Rat) : dot (a :: r) (b :: x) = a * b + dot r x := by
+  simp [dot]
+
+theorem dot_nil_left (x : List Rat) : dot [] x = 0 := by simp [dot]
+
+theorem dot_nil_right (r : List Rat) : dot r [] = 0 := by cases r <;> simp [dot]
+
+theorem dot_replicate_zero (r : List Rat) (k : Nat) : dot r (List.replicate k 0) = 0 := by
+  induction r generalizing k with
+  | nil => simp [dot]
+  | cons a t ih =>
+    cases k with
+    | zero => simp [dot]
+    | succ k => rw [List.replicate_succ, dot_cons, ih]; ring
+
+theorem list_eq_head_tail {l : List Rat} {k : Nat} (h : l.length = k + 1) : l = l.headD 0 :: l.tail := by
+  cases l with
+  | nil => simp at h
+  | cons a t => simp
+
+/-- the elimination step is linear -/
+theorem dot_elim (f : Rat) (cs ps xs : List Rat) (h : cs.length = ps.length) :
+    dot (List.zipWith (fun x y => x - f * y) cs ps) xs = dot cs xs - f * dot ps xs := by
+  induction cs generalizing ps xs with
+  | nil =>
+    cases ps with
+    | nil => simp [dot]
+    | cons p pt => simp at h
+  | cons c ct ih =>
+    cases ps with
+    | nil => simp at h
+    | cons p pt =>
+      cases xs with
+      | nil => simp [dot_nil_right]
+      | cons x xt =>
+        simp only [List.zipWith_cons_cons, dot_cons]
+        rw [ih pt xt (by simpa using h)]
+        ring
+
+theorem findPivot_none {M : List Row} (h : findPivot M = none) : ∀ r ∈ M, rowHead r = 0 := by
+  induction M with
+  | nil => simp
+  | cons r rs ih =>
+    unfold findPivot at h
+    by_cases hr : rowHead r ≠ 0
+    · simp [hr] at h
+    · simp only [hr, if_false] at h
+      cases hf : findPivot rs with
+      | none =>
+        intro r' hr'
+        rcases List.mem_cons.mp hr' with rfl | h'
+        · exact not_not.mp hr
+        · exact ih hf r' h'
+      | some po => simp [hf] at h
+
+theorem findPivot_some {M : List Row} {p : Row} {others : List Row} (h : findPivot M = some (p, others)) :
+    rowHead p ≠ 0 ∧ (∀ r, r ∈ M ↔ r = p ∨ r ∈ others) ∧ M.length = others.length + 1 := by
+  induction M generalizing p others with
+  | nil => simp [findPivot] at h
+  | cons r rs ih =>
+    unfold findPivot at h
+    by_cases hr : rowHead r ≠ 0
+    · rw [if_pos hr] at h
+      simp only [Option.some.injEq, Prod.mk.injEq] at h
+      obtain ⟨rfl, rfl⟩ := h
+      exact ⟨hr, fun r' => by simp, by simp⟩
+    · rw [if_neg hr] at h
+      cases hf : findPivot rs with
+      | none => simp [hf] at h
+      | some po =>
+        obtain ⟨p', o'⟩ := po
+        simp only [hf, Option.some.injEq, Prod.mk.injEq] at h
+        obtain ⟨rfl, rfl⟩ := h
+        obtain ⟨h1, h2, h3⟩ := ih hf
+        refine ⟨h1, fun r' => ?_, by simp [h3]⟩
+        simp only [List.mem_cons, h2 r']
+        tauto
+
+theorem elimRow_length {k : Nat} {p r : Row} (hp : p.1.length = k + 1) (hr : r.1.length = k + 1) :
+    (elimRow p r).1.length = k := by
+  unfold elimRow
+  simp only [List.length_zipWith, List.length_tail, hp, hr]
+  omega
+
+/-- **soundness** of the elimination: what it returns solves every equation -/
+theorem solveRec_sound : ∀ (k : Nat) (M : List Row) (x : List Rat), (∀ r ∈ M, r.1.length = k) →
+    solveRec k M = some x → x.length = k ∧ ∀ r ∈ M, dot r.1 x = r.2
+  | 0, M, x, hwf, h => by
+    unfold solveRec at h
+    split at h
+    · rename_i hall
+      simp only [Option.some.injEq] at h
+      subst h
+      refine ⟨rfl, fun r hr => ?_⟩
+      have h0 : r.1 = [] := List.length_eq_zero_iff.mp (hwf r hr)
+      have h2 : r.2 = 0 := by
+        have := List.all_eq_true.mp hall r hr
+        simpa using this
+      rw [h0, h2, dot_nil_left]
+    · simp at h
+  | k + 1, M, x, hwf, h => by
+    unfold solveRec at h
+    cases hp : findPivot M with
+    | none => simp [hp] at h
+    | some po =>
+      obtain ⟨p, others⟩ := po
+      simp only [hp] at h
+      cases hs : solveRec k (others.map (elimRow p)) with
+      | none => simp [hs] at h
+      | some xs =>
+        simp only [hs, Option.some.injEq] at h
+        subst h
+        obtain ⟨hp0, hmem, _⟩ := findPivot_some hp
+        have hpM : p ∈ M := (hmem p).mpr (Or.inl rfl)
+        have hpl := hwf p hpM
+        have hwf' : ∀ r ∈ others.map (elimRow p), r.1.length = k := by
+          intro r' hr'
+          obtain ⟨r, hr, rfl⟩ := List.mem_map.mp hr'
+          exact elimRow_length hpl (hwf r ((hmem r).mpr (Or.inr hr)))
+        obtain ⟨hlen, hsat⟩ := solveRec_sound k _ xs hwf' hs
+        refine ⟨by simp [hlen], fun r hr => ?_⟩
+        have hrl := hwf r hr
+        rw [list_eq_head_tail hrl, dot_cons]
+        change rowHead r * _ + _ = _
+        rcases (hmem r).mp hr with rfl | hro
+        · field_simp
+          ring
+        · have e := hsat (elimRow p r) (List.mem_map.mpr ⟨r, hro, rfl⟩)
+          simp only [elimRow] at e
+          rw [dot_elim _ _ _ _ (by simp [hrl, hpl])] at e
+          have e' : dot r.1.tail xs = r.2 - rowHead r / rowHead p * p.2 + rowHead r / rowHead p * dot p.1.tail xs := by
+            linarith
+          rw [e']
+          field_simp
+          ring
+
+/-- **completeness** of the elimination with the first-non-zero pivot rule: a square system whose homogeneous part
+has only the zero solution is solved.  (Invertibility guarantees a non-zero pivot in the current column among the
+remaining rows, and the reduced system inherits the property.) -/
+theorem solveRec_complete : ∀ (k : Nat) (M : List Row), (∀ r ∈ M, r.1.length = k) → M.length = k →
+    (∀ y : List Rat, y.length = k → (∀ r ∈ M, dot r.1 y = 0) → y = List.replicate k 0) →
+    ∃ x, solveRec k M = some x
+  | 0, M, _, hlen, _ => by
+    have : M = [] := List.length_eq_zero_iff.mp hlen
+    subst this
+    exact ⟨[], by simp [solveRec]⟩
+  | k + 1, M, hwf, hlen, hinj => by
+    cases hp : findPivot M with
+    | none =>
+      -- every leading coefficient is zero: (1, 0, …, 0) solves the homogeneous system
+      exfalso
+      have hz := findPivot_none hp
+      have := hinj (1 :: List.replicate k 0) (by simp) (fun r hr => by
+        rw [list_eq_head_tail (hwf r hr), dot_cons, dot_replicate_zero]
+        change rowHead r * 1 + 0 = 0
+        rw [hz r hr]; ring)
+      rw [List.replicate_succ] at this
+      have h10 : (1 : Rat) = 0 := (List.cons.inj this).1
+      exact absurd h10 (by decide)
+    | some po =>
+      obtain ⟨p, others⟩ := po
+      obtain ⟨hp0, hmem, hl⟩ := findPivot_some hp
+      have hpM : p ∈ M := (hmem p).mpr (Or.inl rfl)
+      have hpl := hwf p hpM
+      have hwf' : ∀ r ∈ others.map (elimRow p), r.1.length = k := by
+        intro r' hr'
+        obtain ⟨r, hr, rfl⟩ := List.mem_map.mp hr'
+        exact elimRow_length hpl (hwf r ((hmem r).mpr (Or.inr hr)))
+      have hlen' : (others.map (elimRow p)).length = k := by
+        simp only [List.length_map]; omega
+      have hinj' : ∀ y : List Rat, y.length = k → (∀ r ∈ others.map (elimRow p), dot r.1 y = 0) →
+          y = List.replicate k 0 := by
+        intro y' hy' hall
+        have hbig := hinj ((-(dot p.1.tail y') / rowHead p) :: y') (by simp [hy']) (fun r hr => by
+          have hrl := hwf r hr
+          rw [list_eq_head_tail hrl, dot_cons]
+          change rowHead r * _ + _ = _
+          rcases (hmem r).mp hr with rfl | hro
+          · field_simp
+            ring
+          · have e := hall (elimRow p r) (List.mem_map.mpr ⟨r, hro, rfl⟩)
+            simp only [elimRow] at e
+            rw [dot_elim _ _ _ _ (by simp [hrl, hpl])] at e
+            have e' : dot r.1.tail y' = rowHead r / rowHead p * dot p.1.tail y' := by linarith
+            rw [e']
+            field_simp
+            ring)
+        rw [List.replicate_succ] at hbig
+        exact (List.cons.inj hbig).2
+      obtain ⟨xs, hxs⟩ := solveRec_complete k _ hwf' hlen' hinj'
+      exact ⟨(p.2 - dot p.1.tail xs) / rowHead p :: xs, by simp [solveRec, hp, hxs]⟩
+
+theorem matVec_eq_of_rows {A : List (List Rat)} {b x : List Rat} (hl : A.length = b.length)
+    (h : ∀ r ∈ A.zip b, dot r.1 x = r.2) : matVec A x = b := by
+  induction A generalizing b with
+  | nil =>
+    cases b with
+    | nil => simp [matVec]
+    | cons _ _ => simp at hl
+  | cons a t ih =>
+    cases b with
+    | nil => simp at hl
+    | cons b0 bt =>
+      have h0 := h (a, b0) (by simp)
+      have ht := ih (b := bt) (by simpa using hl) (fun r hr => h r (by simp [hr]))
+      simp only [matVec, List.map_cons] at ht ⊢
+      rw [ht]
+      simp only at h0
+      rw [h0]
+
+theorem exists_zip_of_mem {A : List (List Rat)} {b : List Rat} (hl : A.length = b.length) {a : List Rat} (ha : a ∈ A) :
+    ∃ bi, (a, bi) ∈ A.zip b := by
+  induction A generalizing b with
+  | nil => simp at ha
+  | cons a0 t ih =>
+    cases b with
+    | nil => simp at hl
+    | cons b0 bt =>
+      rcases List.mem_cons.mp ha with rfl | h'
+      · exact ⟨b0, by simp⟩
+      · obtain ⟨bi, hbi⟩ := ih (b := bt) (by simpa using hl) h'
+        exact ⟨bi, by simp [hbi]⟩
+
+/-- a left inverse makes the homogeneous system trivial -/
+theorem inj_of_leftInverse {A B : List (List Rat)} {b : List Rat} {k : Nat} (hl : A.length = b.length)
+    (hinv : ∀ y : List Rat, y.length = k → matVec B (matVec A y) = y) :
+    ∀ y : List Rat, y.length = k → (∀ r ∈ A.zip b, dot r.1 y = 0) → y = List.replicate k 0 := by
+  intro y hy h
+  have hA : matVec A y = List.replicate A.length 0 := by
+    rw [List.eq_replicate_iff]
+    refine ⟨by simp [matVec], fun e he => ?_⟩
+    obtain ⟨a, ha, rfl⟩ := List.mem_map.mp he
+    obtain ⟨bi, hbi⟩ := exists_zip_of_mem hl ha
+    exact h (a, bi) hbi
+  have hy' := hinv y hy
+  rw [hA] at hy'
+  rw [List.eq_replicate_iff]
+  refine ⟨hy, fun e he => ?_⟩
+  rw [← hy'] at he
+  obtain ⟨r, _, rfl⟩ := List.mem_map.mp he
+  exact dot_replicate_zero r _
+
+/-- **the solver is total on left-invertible square systems**, and its answer solves the system -/
+theorem gaussJordan_total {A B : List (List Rat)} {b : List Rat} (hl : A.length = b.length)
+    (hrows : ∀ a ∈ A, a.length = b.length)
+    (hinv : ∀ y : List Rat, y.length = b.length → matVec B (matVec A y) = y) :
+    ∃ x, gaussJordan b.length A b = some x ∧ matVec A x = b ∧ x.length = b.length := by
+  have hwf : ∀ r ∈ A.zip b, r.1.length = b.length := fun r hr => hrows r.1 (List.of_mem_zip hr).1
+  have hlen : (A.zip b).length = b.length := by simp [hl]
+  obtain ⟨x, hx⟩ := solveRec_complete b.length (A.zip b) hwf hlen (inj_of_leftInverse hl hinv)
+  obtain ⟨hxl, hsat⟩ := solveRec_sound _ _ x hwf hx
+  exact ⟨x, hx, matVec_eq_of_rows hl hsat, hxl⟩
+
+theorem solveChecked_total {A B : List (List Rat)} {b : List Rat} (hl : A.length = b.length)
+    (hrows : ∀ a ∈ A, a.length = b.length)
+    (hinv : ∀ y : List Rat, y.length = b.length → matVec B (matVec A y) = y) :
+    ∃ x, solveChecked A b = some x := by
+  obtain ⟨x, hx, hAx, hxl⟩ := gaussJordan_total hl hrows hinv
+  exact ⟨x, by simp [solveChecked, hx, hAx, hxl]⟩
+
 end ThermoVerif.Separations
